@@ -30,6 +30,9 @@ CHECKS = {
  "C08": ("exhaustive pairwise/triple-wise checking over a constructed universe of constants (E1): Equals vs structural truth, symmetry, transitivity, Equals=>Hash/String equal, String equal=>Equals, atoms; maps/structs from every argument order",
          "bounded-exhaustive: every ordered pair (and every triple of a sub-universe) of a ~3000-constant universe built through the public constructors is compared; every 2-3 entry map/struct over 8 keys (incl. hash-colliding ones) is built in every argument order",
          "structural truth = verifmc/oracle.Key; the Go-map iteration order inside ast.Map for equal-hash keys is sampled by 24 repeated constructions (not enumerated)", "4 C08"),
+ "C09": ("exhaustive print/parse round trips over enumerated inputs (E1): every single ASCII byte and all short strings over a critical character set, every byte and byte pairs, boundary numbers/floats/times/durations, a ~5000-constant structured universe, atoms, the C04 clause space, temporal clauses, type expressions",
+         "bounded-exhaustive: every object of the enumerated spaces is printed with String(), parsed with the matching parse entry point (constants evaluated with functional.EvalExpr) and compared with Equals and with an independent structural key; clauses additionally by print-parse-print fixpoint",
+         "valid UTF-8 strings, lexer-valid names, finite floats, second-resolution timestamps in annotations (the alphabet the property names)", "4 C09"),
 }
 NOT_APPLICABLE = {
 }
